@@ -39,6 +39,10 @@ Definition dec_formula (x : sx) : option formula :=
       | Some o, Some a, Some b => Some (FBin o a b) | _, _, _ => None end
   | SL [SZ 4; a] => option_map FNeg (dec_operand a)
   | SL [SZ 5; SZ w; a] => option_map (FAgg (Z.to_nat w)) (dec_operand a)
+  | SL [SZ 6] => Some FAlias       (* reference cell of an unbounded range: see Extract/C01.v *)
+  | SL [SZ 7; SZ w; a; SZ o; b] =>
+      match op_of_code o, dec_operand a, dec_operand b with
+      | Some o, Some a, Some b => Some (FAggBin (Z.to_nat w) a o b) | _, _, _ => None end
   | _ => None
   end%Z.
 
